@@ -1,11 +1,21 @@
 import SasLexer.Spec.Basic
 import SasLexer.Properties.C03
+import SasLexer.Proofs.Pure.Lines
 /-!
 # C04 — lines and columns: theorems
 
 Full-strength statement: `C04_statement`.  Proved (kernel, every control logic):
 `kernel_C04_line_positions` — every recorded line start is a (byte, char) position pair of the
 source, hence columns computed as `start − line.start` are code-point counts.
+Proved (pure, every buffer, both arithmetic profiles): `DBuf.resolved_lines_exact` /
+`C04_of_lineWF` — on a buffer whose line table is exact (`LineWF`: the table is `lineStarts s`,
+every token is a position pair at or after the BOM whose line index is the number of line feeds
+before it, starts never decrease, fewer than 2^32 lines) the resolved view / the accessors return
+for **every** token exactly the line, column, end line and end column that the specification
+computes from the text (the end-line formula `next.byte == line.byte && cur.byte < next.byte ⇒ −1`
+is correct, no `u32` subtraction underflows).  So the token clauses of C04 are reduced to the line
+discipline (`lineWFB`, a decidable monitor with `lineWFB_sound`).  Edge noted by the proof: with
+2^32−1 line feeds `line + 1` would overflow `u32`; such an input needs > 100 GB of buffers.
 Not a kernel fact (a program over the primitives may call `add_line` anywhere): that line
 starts are recorded exactly after each line feed.  That is the *line discipline* of the ~15
 scanners of the control logic; it is decided per run by `Spec.C04` (which recomputes the line
@@ -35,6 +45,93 @@ example : Spec.C04 ";datalines4;\nx\n;\ny".toList (modelDump ⟨false, false, fa
   decide +kernel
 example : Spec.C04 "﻿a='x\ny';/*\n*/%m\n\n (a\n=1)".toList
     (modelDump ⟨true, true, false⟩ "﻿a='x\ny';/*\n*/%m\n\n (a\n=1)".toList) = [] := by
+  decide +kernel
+
+/-- **C04 reduced to the line discipline**: for a buffer with an exact line table (`LineWF`), every
+clause of `Spec.C04` about tokens holds of its dump; only the clause about *errors* (whose line and
+column are computed by the lexer at emission time, not by the buffer) is left. -/
+theorem C04_of_lineWF (cfg : Cfg) (s : List Char) (b : DBuf) (errs : List ErrInfo) (o : Outcome)
+    (snap : Option Snapshot) (iters : Nat) (h : LineWF s b) (hne : b.toks ≠ []) :
+    ∀ c ∈ Spec.C04 s (dumpOfBuf cfg s b errs o snap iters), c = "error-line-col" := by
+  obtain ⟨rows, hres, _, hrows⟩ := DBuf.resolved_lines_exact cfg s b h hne
+  have h1 : (b.lines == lineStarts s) = true := by rw [h.lines]; simp
+  have h2 : (b.toks.all fun t => t.line == lineIdxOfChar s t.start) = true := by
+    rw [List.all_eq_true]
+    intro t ht
+    simp [(h.toks t ht).line]
+  intro c hc
+  unfold Spec.C04 dumpOfBuf at hc
+  simp only [hres, h1, h2, Spec.clause, if_true, List.nil_append] at hc
+  split at hc
+  · split at hc
+    · simp at hc
+    · simpa using hc
+  · rename_i hno
+    exfalso
+    apply hno
+    rw [List.all_eq_true]
+    intro x hx
+    rw [List.mem_map] at hx
+    obtain ⟨r, hr, rfl⟩ := hx
+    obtain ⟨k, hk⟩ := List.getElem?_of_mem hr
+    obtain ⟨e1, e2, e3⟩ := hrows k r hk
+    unfold rowInts
+    cases hp : r.payload <;> simp [payloadInts, e1, e2, ← e3]
+
+
+theorem posPair_of_charIdxOfByte : ∀ (s : List Char) (b c : Nat), charIdxOfByte s b = some c → PosPair s b c
+  | s, 0, c, h => by
+    have : c = 0 := by cases s <;> simp [charIdxOfByte] at h <;> omega
+    subst this; exact PosPair.zero s
+  | [], b + 1, c, h => by simp [charIdxOfByte] at h
+  | c0 :: cs, b + 1, c, h => by
+    unfold charIdxOfByte at h
+    split at h
+    · rename_i hle
+      simp only [Option.map_eq_some_iff] at h
+      obtain ⟨c', hc', rfl⟩ := h
+      obtain ⟨pre, suf, hs, hb, hc⟩ := posPair_of_charIdxOfByte cs _ c' hc'
+      refine ⟨c0 :: pre, suf, by simp [hs], ?_, by simp [hc]⟩
+      simp only [utf8Len]; omega
+    · simp at h
+
+theorem monotone_index : ∀ (l : List TokInfo), Spec.monotone (l.map (·.start)) = true →
+    ∀ i x y, l[i]? = some x → l[i + 1]? = some y → x.start ≤ y.start
+  | [], _, i, x, y, hx, _ => by simp at hx
+  | [a], _, i, x, y, hx, hy => by
+    cases i <;> simp at hy
+  | a :: b :: r, h, i, x, y, hx, hy => by
+    simp only [List.map_cons, Spec.monotone, Bool.and_eq_true, decide_eq_true_eq] at h
+    cases i with
+    | zero =>
+      simp only [List.getElem?_cons_zero, Option.some.injEq, Nat.zero_add, List.getElem?_cons_succ] at hx hy
+      subst hx; subst hy; exact h.1
+    | succ i =>
+      simp only [List.getElem?_cons_succ] at hx hy
+      exact monotone_index (b :: r) (by simpa using h.2) i x y hx hy
+
+/-- executable form of `LineWF` (a run-time monitor on dumps, and the bridge for kernel-evaluated
+instances) -/
+def lineWFB (s : List Char) (b : DBuf) : Bool :=
+  b.lines == lineStarts s && decide ((lineStarts s).length < two32) &&
+  b.toks.all (fun t => Spec.posOk s t.byte t.start && decide (bomChars s ≤ t.start) && t.line == lineIdxOfChar s t.start) &&
+  Spec.monotone (b.toks.map (·.start))
+
+theorem lineWFB_sound {s : List Char} {b : DBuf} (h : lineWFB s b = true) : LineWF s b := by
+  unfold lineWFB at h
+  simp only [Bool.and_eq_true, decide_eq_true_eq, List.all_eq_true, beq_iff_eq] at h
+  obtain ⟨⟨⟨h1, h2⟩, h3⟩, h4⟩ := h
+  refine ⟨h1, h2, ?_, monotone_index b.toks h4⟩
+  intro t ht
+  obtain ⟨⟨hp, hb⟩, hl⟩ := h3 t ht
+  refine ⟨posPair_of_charIdxOfByte s _ _ ?_, hb, hl⟩
+  simpa [Spec.posOk] using hp
+
+/-- non-vacuity: the buffer the model produces for a multi-line program with a BOM, a line feed
+inside a string and inside a comment, a rollback and an empty recovery token satisfies `LineWF`,
+so `C04_of_lineWF` applies to it -/
+example : lineWFB "\uFEFFa='x\ny';/*\n*/%m\n\n (a\n=1);%let b 1;".toList
+    (lexProgram ⟨true, true, false⟩ "\uFEFFa='x\ny';/*\n*/%m\n\n (a\n=1);%let b 1;".toList).buf = true := by
   decide +kernel
 
 end SasLexer
